@@ -101,12 +101,25 @@ func NewTCPMuxDefault(params TCPMuxParams) *TCPMuxDefault {
 	return mux
 }
 
+// acceptRetryDelay is the pause after a temporary Accept error.
+const acceptRetryDelay = 5 * time.Millisecond
+
 func (m *TCPMuxDefault) start() {
 	m.params.Logger.Infof("Listening TCP on %s", m.params.Listener.Addr())
 	for {
 		conn, err := m.params.Listener.Accept()
 		if err != nil {
 			m.params.Logger.Infof("Error accepting connection: %s", err)
+
+			// A listener under pressure reports temporary errors (out of descriptors, a
+			// client that gave up): keep accepting, or every later client would be
+			// accepted by the kernel and served by nobody.
+			var netErr net.Error
+			if errors.As(err, &netErr) && netErr.Temporary() && !errors.Is(err, net.ErrClosed) { //nolint:staticcheck
+				time.Sleep(acceptRetryDelay)
+
+				continue
+			}
 
 			return
 		}
